@@ -24,7 +24,7 @@ theorem uncompress_piv_bounds {o : Bytes} {u : Unprot} (h : uncompress o = some 
 theorem recvParams_of_fields {tb : Nat} {B : Ctx} {rid : Option ReqId} {o : Msg}
     {option : Bytes} {u : Unprot} {s : Selected} {nonce : Bytes}
     (hcode : rid.isSome = isResponse o.code) (hopt : findOpt 9 o.opts = some option)
-    (hu : uncompress option = some u) (hids : idsAcceptable B u = true)
+    (hu : uncompress option = some u) (hids : idsAcceptable B (isResponse o.code) u = true)
     (hsel : selectPiv B rid o.code u = .ok s) (hg : u.group = false)
     (hlen : tb + 1 ≤ o.payload.length)
     (hn : constructNonce B.ivBytes B.commonIv s.piv s.gen = some nonce) :
@@ -52,7 +52,7 @@ theorem recvParams_of_fields {tb : Nat} {B : Ctx} {rid : Option ReqId} {o : Msg}
 theorem recvParams_ok_inv {tb : Nat} {B : Ctx} {rid : Option ReqId} {o : Msg} {rp : RecvParams}
     (h : recvParams tb B rid o = .ok rp) :
     ∃ option u s, rid.isSome = isResponse o.code ∧ findOpt 9 o.opts = some option ∧
-      uncompress option = some u ∧ idsAcceptable B u = true ∧
+      uncompress option = some u ∧ idsAcceptable B (isResponse o.code) u = true ∧
       selectPiv B rid o.code u = .ok s ∧ u.group = false ∧ tb + 1 ≤ o.payload.length ∧
       constructNonce B.ivBytes B.commonIv s.piv s.gen = some rp.nonce ∧
       rp.aad = aad B.algValue s.rid.kid s.rid.piv ∧ rp.rid = s.rid ∧ rp.seqno = s.seqno := by
